@@ -198,12 +198,11 @@ for n, props, sym, kw in [
 for n, sym, kw in [
     ("twin_sync_noparent", "a:u8, b:u8 (shapes: early return; `?` + &mut log + name=)", {}),
     ("twin_generic_method_noparent", "array, index, Option<u8> (shapes: generic method with lifetime + short_name; properties)", {}),
-    ("twin_async_noparent", "a:u8 (shape: async fn awaiting a once-pending future)", dict(tier="thorough", mem_gb=30, cap_s=2400)),
     ("twin_names_sync", "a:u8, b:u8 (names and span counts of the sync shapes; recording stubs for the two entry points)", {}),
     ("twin_names_async_enter_on_poll", "a:u8 (name and one local span per poll for async + enter_on_poll)", {}),
     ("twin_async_enter_on_poll_noparent", "a:u8 (shape: async fn + enter_on_poll)", {}),
 ]:
-    H("harness-crate", "twins", n, ["C15"], sym=sym, bound="6-shape corpus of annotated functions with hand-written twins; all argument values",
+    H("harness-crate", "twins", n, ["C15"], sym=sym, bound="5-shape corpus of annotated functions with hand-written twins (4 sync shapes, async + enter_on_poll); all argument values",
       models=SPM + (("stub-names",) if n.startswith("twin_names") else ()), **kw)
 
 # ---------------------------------------------------------------- disabled build (C16)
